@@ -266,3 +266,35 @@ impl CoseKdfContextBuilder {
         self
     }
 }
+
+/// Verification hook (only compiled with `--cfg coset_verif`): read and build the private fields of
+/// [`CoseKdfContext`] so that an external harness can compare them with a reference.
+#[cfg(coset_verif)]
+impl CoseKdfContext {
+    /// Borrow the fields in declaration order.
+    pub fn verif_parts(&self) -> (&Algorithm, &PartyInfo, &PartyInfo, &SuppPubInfo, &Vec<Vec<u8>>) {
+        (
+            &self.algorithm_id,
+            &self.party_u_info,
+            &self.party_v_info,
+            &self.supp_pub_info,
+            &self.supp_priv_info,
+        )
+    }
+    /// Assemble a value from its fields.
+    pub fn verif_from_parts(
+        algorithm_id: Algorithm,
+        party_u_info: PartyInfo,
+        party_v_info: PartyInfo,
+        supp_pub_info: SuppPubInfo,
+        supp_priv_info: Vec<Vec<u8>>,
+    ) -> Self {
+        Self {
+            algorithm_id,
+            party_u_info,
+            party_v_info,
+            supp_pub_info,
+            supp_priv_info,
+        }
+    }
+}
